@@ -85,6 +85,7 @@ func init() {
 			c.Clause("C05-D3")
 			ruleRunGuardClient(c)
 			ruleReaderExitStops(c, "client")
+			ruleStoppedReaderExits(c, "client")
 			c.Clause("C05-D4")
 			ruleFilterErrorTable(c)
 			ruleWatcherReportsCtxErr(c, "client")
